@@ -11,7 +11,7 @@
 import json, os, random
 import vlib
 
-FIX = '{"pubcomp_collision", "clean_collision", "rel_id_reuse", "clean_order", "clean_start_rotation", "replay_window", "pkid_wrap"}'
+FIX = '{"pubcomp_collision", "clean_collision", "rel_id_reuse", "clean_order", "clean_start_rotation", "replay_window", "pkid_wrap", "ack_failure"}'
 
 PROPS = {
     "C02": dict(view="ViewC02", inv=["NoPanic", "NoLoss", "NoLostRelease"], act=[]),
@@ -131,21 +131,41 @@ def loop_traces(ctx, bindir, pid, version, n, scripts, tag, manual=False, thrott
     tp = ctx.path("traces_%s.ndjson" % tag)
     summ = vlib.last_json(vlib.run_bin(os.path.join(bindir, "client_loop"), [version, n, sp, tp, 1 if manual else 0, throttle_ms], timeout=1200))
     body = "SPECIFICATION TraceSpec\nINVARIANTS %s\nCONSTRAINT Progress\nPOSTCONDITION TraceAccepted\nCHECK_DEADLOCK FALSE\n" % " ".join(TRACE_INV[pid])
-    cfg = write_cfg(ctx, "ClientLoopTrace_%s" % tag, consts(version, n, manual, MaxMsgs=0, ChanCap=0, MaxFails=0, MaxBroker=0, QoSs="{}"), body)
     lines = open(tp).read().splitlines()
-    res = vlib.run_tlc_raw(ctx, "ClientLoopTrace", cfg=cfg, workers=1, timeout=1800, env={"TRACE": tp}, dfs=True, name="trace_" + tag, heap="8g")
+
+    def validate(strict, name):
+        c = consts(version, n, manual, MaxMsgs=0, ChanCap=0, MaxFails=0, MaxBroker=0, QoSs="{}")
+        c["Strict"] = "TRUE" if strict else "FALSE"
+        cfg = write_cfg(ctx, "ClientLoopTrace_%s" % name, c, body)
+        res = vlib.run_tlc_raw(ctx, "ClientLoopTrace", cfg=cfg, workers=1, timeout=1800, env={"TRACE": tp}, dfs=True, name="trace_" + name, heap="8g")
+        if res.invariant_violated:
+            # a property invariant fails in a state of a trace the real client produced
+            m = __import__("re").findall(r"/\\ l = (\d+)", res.out)
+            line = int(m[-1]) if m else 0
+            return ("inv", "invariant %s violated by a recorded EventLoop execution" % res.invariant_violated[0], line)
+        if "TRACE-REJECTED" in res.out or "Postcondition" in res.out:
+            m = __import__("re").search(r'"TRACE-REJECTED at line",\s*(\d+)', res.out)
+            line = int(m.group(1)) if m else 0
+            return ("rejected", "recorded EventLoop execution is not a behaviour of ClientLoop.tla (first unexplained event %d)" % line, line)
+        if not res.ok:
+            raise vlib.ToolError("trace validation failed to run: %s" % (res.error,))
+        return None
+
     bad = None
-    if res.invariant_violated:
-        # a property invariant fails in a state of a trace the real client produced
-        m = __import__("re").findall(r"/\\ l = (\d+)", res.out)
-        line = int(m[-1]) if m else 0
-        bad = ("invariant %s violated by a recorded EventLoop execution" % res.invariant_violated[0], line)
-    elif "TRACE-REJECTED" in res.out or "Postcondition" in res.out:
-        m = __import__("re").search(r'"TRACE-REJECTED at line",\s*(\d+)', res.out)
-        line = int(m.group(1)) if m else 0
-        bad = ("recorded EventLoop execution is not a behaviour of ClientLoop.tla (first unexplained event %d)" % line, line)
-    elif not res.ok:
-        raise vlib.ToolError("trace validation failed to run: %s" % (res.error,))
+    r1 = validate(True, tag)
+    if r1 and r1[0] == "inv":
+        bad = r1[1:]
+    elif r1:
+        # second stage: are the outputs of the real client explainable by the model at all?
+        r2 = validate(False, tag + "_obs")
+        if r2 is None:
+            msg = ("v%d limit %d: the public state of the real EventLoop differs from ClientLoop.tla at event %d (%s), but its outputs are a behaviour of the model and the "
+                   "invariants hold on it: the exhaustive TLC results no longer speak about this code (update ClientState.tla / ClientLoop.tla), no property violation shown"
+                   % (version, n, r1[2], lines[r1[2] - 1][:160] if 0 < r1[2] <= len(lines) else ""))
+            print("DRIFT property=%s %s" % (pid, msg))
+            ctx.drift.append({"note": msg})
+        else:
+            bad = r2[1:]
     if bad:
         what, line = bad
         start = max([j for j in range(min(line, len(lines))) if '"ev":"reset"' in lines[j]] or [0])
@@ -225,7 +245,7 @@ def run_property(ctx, pid):
         "impl_to_spec": {"eventloop_traces_validated": n_traces, "events": n_events, "invariants_on_traces": TRACE_INV[pid]},
     }, ["exhaustive only for the stated small constants; limits 100 are covered by validated traces of seeded random drivers",
         "the broker side of the in-memory transport is scripted by the harness; TLS/websocket/proxy transports are not exercised",
-        "v5 reason codes other than success and topic aliases are not modelled",
+        "v5 acknowledgements are modelled with two reason classes (success / failure); topic aliases and other properties are not modelled",
         "a recorded execution that ClientLoop.tla cannot explain is reported as a violation (the model is the reference for the current code)"])
 
 
